@@ -150,6 +150,51 @@ func (o onlyReader) Read(p []byte) (int, error) { return o.r.Read(p) }
 const opTimeout = 10 * time.Second
 
 // timed runs f under a watchdog: a call that does not return is reported as HANG.
+// spareBuf returns scratch[:n] of a long-lived buffer whose capacity exceeds every block size; the
+// bytes behind n hold a pattern that spareIntact re-checks (the first 128 KiB and a sample further on).
+var spareScratch []byte
+
+const spareCheck = 128 << 10
+
+func spareBuf(n int) []byte {
+	need := n + (4 << 20) + 64
+	if len(spareScratch) < need {
+		spareScratch = make([]byte, need+(1<<20))
+		for i := range spareScratch {
+			spareScratch[i] = byte(0x5A + i%7)
+		}
+	}
+	for i := 0; i < n; i++ {
+		spareScratch[i] = 0xC3
+	}
+	return spareScratch[:n]
+}
+
+func spareIntact(n int) bool {
+	ok := true
+	lim := n + spareCheck
+	for i := n; i < lim; i++ {
+		if spareScratch[i] != byte(0x5A+i%7) {
+			ok = false
+		}
+	}
+	for i := lim; i < len(spareScratch); i += 4099 {
+		if spareScratch[i] != byte(0x5A+i%7) {
+			ok = false
+		}
+	}
+	// restore the pattern over what this call used
+	for i := 0; i < lim && i < len(spareScratch); i++ {
+		spareScratch[i] = byte(0x5A + i%7)
+	}
+	if !ok {
+		for i := range spareScratch {
+			spareScratch[i] = byte(0x5A + i%7)
+		}
+	}
+	return ok
+}
+
 func timed(f func() string) (string, bool) {
 	ch := make(chan string, 1)
 	go func() {
@@ -475,11 +520,16 @@ func implR(f []string, o *oracleSink) string {
 		r, ok := timed(func() string {
 			switch p[0] {
 			case "r":
-				buf := make([]byte, atoi(p[1]))
+				// the caller's buffer is a short slice of a large one: nothing behind len(p) may be touched
+				want := atoi(p[1])
+				buf := spareBuf(want)
 				posBefore := src.pos()
 				n, err := zr.Read(buf)
 				if n > len(buf) || n < 0 {
 					return fmt.Sprintf("%d/BADCOUNT/%s", n, errName(err))
+				}
+				if !spareIntact(want) {
+					notes = append(notes, "WROTE-BEHIND-LEN")
 				}
 				if cleanEOF && conc == 1 && src.pos() != posBefore {
 					notes = append(notes, "READ-AFTER-EOF-CONSUMES")
